@@ -22,7 +22,7 @@ var (
 	// three canonical versions per path, matching the path's major version;
 	// lexical and semantic order differ inside a.com/x and c.com/z/v2.
 	EditVers = map[string][]string{
-		"a.com/x":    {"v1.2.3", "v1.10.0", "v1.0.0"},
+		"a.com/x":    {"v1.2.3", "v1.10.0", "v1.0.0", "v1.9.10"}, // the last is as long as the second and sorts the other way as a string
 		"b.com/y":    {"v1.0.0", "v0.1.0", "v1.1.0-pre"},
 		"c.com/z/v2": {"v2.10.0", "v2.1.0", "v2.0.0"},
 		"d.com/w":    {"v0.0.1", "v1.0.0", "v2.0.0+incompatible", "v1.0.0+incompatible"}, // the last differs from the second by its build tag only
@@ -37,7 +37,7 @@ var (
 	EditToolchains = []string{"go1.21.0", "go1.22.1", "default"}
 	EditModules    = []string{"m.com/m", "n.com/n"}
 	// replacement targets: directories have no version
-	EditTargets = [][2]string{{"../x", ""}, {"../y", ""}, {"e.com/fork", "v1.0.0"}, {"e.com/fork", "v1.1.0"}, {"../z//w", ""}, {"./sp ace", ""}, {".", ""}, {"..", ""}, {"../q//", ""}}
+	EditTargets = [][2]string{{"../x", ""}, {"../y", ""}, {"e.com/fork", "v1.0.0"}, {"e.com/fork", "v1.1.0"}, {"f.com/other", "v1.0.0"}, {"../z//w", ""}, {"./sp ace", ""}, {".", ""}, {"..", ""}, {"../q//", ""}}
 )
 
 // EditLine describes one directive line of a generated file.
